@@ -56,7 +56,7 @@ det_re, det_im = F("det_re", Mat, R), F("det_im", Mat, R)
 sgn_re, sgn_im = F("sgn_re", Mat, R), F("sgn_im", Mat, R)      # phase of det
 ld = F("ld", Mat, R)                                            # log |det|
 trc_re, trc_im = F("trc_re", Mat, R), F("trc_im", Mat, R)
-cpow_re, cpow_im = F("cpow_re", R, R, R, R), F("cpow_im", R, R, R, R)   # (re,im)**k  (k real, integral in uses)
+cpow_re, cpow_im = F("cpow_re", R, R, I, R), F("cpow_im", R, R, I, R)   # (re,im)**k for an integer k
 rlog, rsqrt, cabs = F("rlog", R, R), F("rsqrt", R, R), F("cabs", R, R, R)
 # predicates
 invok = F("invok", Mat, B)
@@ -72,7 +72,10 @@ n, m, k = z3.Ints("n m k")
 p, q = z3.Consts("p q", Perm)
 f = z3.Const("f", Fn)
 
-LEMMAS = []   # (name, formula, provenance)
+LEMMAS = []   # (name, formula, provenance, group)
+_GROUP = ['dims']
+# lemmas whose bodies create fresh inverse/identity terms: only used by obligations that ask for the 'extra' group
+EXTRA_NAMES = {'inv_mul_cancel', 'inv_unique_l', 'stief_def', 'herm_cjtr_mul', 'herm_mul_cjtr'}
 
 
 def sq(t):
@@ -101,18 +104,47 @@ def lemma(name, vars_, body, pats, prov):
         else:
             zp.append(pt)
     fm = z3.ForAll(list(vars_), body, patterns=zp, qid=name)
-    LEMMAS.append((name, fm, prov))
+    LEMMAS.append((name, fm, prov, 'extra' if name in EXTRA_NAMES else _GROUP[0]))
     return fm
 
 
+rm = F("rm", R, R, R)        # multiplication of two (non-numeral) reals, kept uninterpreted: no non-linear arithmetic in any VC
+rinv = F("rinv", R, R)      # reciprocal
+
+
+def _num(t):
+    t = z3.simplify(t) if not z3.is_var(t) else t
+    if z3.is_rational_value(t):
+        return t
+    return None
+
+
+def rmul(x1, x2):
+    """product of two reals.  A numeral factor stays interpreted (linear); otherwise the uninterpreted rm."""
+    x1 = x1 if z3.is_expr(x1) else z3.RealVal(x1)
+    x2 = x2 if z3.is_expr(x2) else z3.RealVal(x2)
+    n1, n2 = _num(x1), _num(x2)
+    if n1 is not None or n2 is not None:
+        return x1 * x2
+    return rm(x1, x2)
+
+
+def rdiv(x1, x2):
+    n2 = _num(x2)
+    if n2 is not None:
+        return x1 / x2
+    return rmul(x1, rinv(x2))
+
+
 def cmul(x1, y1, x2, y2):
-    return x1 * x2 - y1 * y2, x1 * y2 + y1 * x2
+    return rmul(x1, x2) - rmul(y1, y2), rmul(x1, y2) + rmul(y1, x2)
 
 
 ML = "Mathlib:"
 AS = "ASSUMED:"
 
 # ---------------------------------------------------------------- dimensions
+_GROUP[0] = 'dims'
 lemma("dim_mmul", [a, b], z3.And(rows(mmul(a, b)) == rows(a), cols(mmul(a, b)) == cols(b)), [mmul(a, b)], "definition")
 lemma("dim_madd", [a, b], z3.And(rows(madd(a, b)) == rows(a), cols(madd(a, b)) == cols(a)), [madd(a, b)], "definition")
 lemma("dim_smul", [x, y, a], z3.And(rows(smul(x, y, a)) == rows(a), cols(smul(x, y, a)) == cols(a)), [smul(x, y, a)], "definition")
@@ -146,6 +178,7 @@ lemma("dim_vrep", [a, n], z3.And(rows(vrep(a, n)) == n * rows(a), cols(vrep(a, n
 lemma("dim_dgk", [a, k], z3.And(cols(dgk(a, k)) == 1), [dgk(a, k)], "definition")
 
 # ---------------------------------------------------------------- ring structure
+_GROUP[0] = 'ring'
 lemma("mmul_assoc", [a, b, c], mmul(mmul(a, b), c) == mmul(a, mmul(b, c)), [mmul(mmul(a, b), c)], ML + "Matrix.mul_assoc")
 lemma("madd_assoc", [a, b, c], madd(madd(a, b), c) == madd(a, madd(b, c)), [madd(madd(a, b), c)], ML + "add_assoc")
 lemma("kron_assoc", [a, b, c], kron(kron(a, b), c) == kron(a, kron(b, c)), [kron(kron(a, b), c)], ML + "Matrix.kronecker_assoc (up to reindexing)")
@@ -153,12 +186,24 @@ lemma("ksum_assoc", [a, b, c], ksum(ksum(a, b), c) == ksum(a, ksum(b, c)), [ksum
 lemma("bd_assoc", [a, b, c], bd(bd(a, b), c) == bd(a, bd(b, c)), [bd(bd(a, b), c)], ML + "Matrix.fromBlocks assoc (reindexing)")
 lemma("eye_mul_l", [n, a], z3.Implies(rows(a) == n, mmul(eye(n), a) == a), [mmul(eye(n), a)], ML + "Matrix.one_mul")
 lemma("eye_mul_r", [n, a], z3.Implies(cols(a) == n, mmul(a, eye(n)) == a), [mmul(a, eye(n))], ML + "Matrix.mul_one")
+lemma("rm_comm", [x, y], rm(x, y) == rm(y, x), [rm(x, y)], "commutativity of multiplication in R")
+# no associativity axiom for rm: with the zero-absorption facts it makes E-matching diverge (every product in the class of 0
+# re-matches); the proxies fold products to the right instead, and lemma conclusions are written right-nested.
+lemma("rm_one", [x], z3.And(rm(1, x) == x, rm(x, 1) == x), [rm(1, x)], "unit")
+lemma("rm_one_r", [x], z3.And(rm(1, x) == x, rm(x, 1) == x), [rm(x, 1)], "unit")
+lemma("rm_zero", [x], z3.And(rm(0, x) == 0, rm(x, 0) == 0), [rm(0, x)], "zero")
+lemma("rm_zero_r", [x], z3.And(rm(0, x) == 0, rm(x, 0) == 0), [rm(x, 0)], "zero")
+lemma("rm_neg", [x], z3.And(rm(-1, x) == -x, rm(x, -1) == -x), [rm(-1, x)], "minus one")
+lemma("rm_neg_r", [x], z3.And(rm(-1, x) == -x, rm(x, -1) == -x), [rm(x, -1)], "minus one")
+lemma("rinv_def", [x], z3.Implies(x != 0, z3.And(rm(x, rinv(x)) == 1, rinv(x) != 0)), [rinv(x)], "reciprocal")
+lemma("rinv_rinv", [x], z3.Implies(x != 0, rinv(rinv(x)) == x), [rinv(rinv(x))], "reciprocal of reciprocal")
 lemma("smul_one", [a], smul(1, 0, a) == a, [smul(1, 0, a)], ML + "one_smul")
-lemma("smul_smul", [x, y, u, v, a], smul(x, y, smul(u, v, a)) == smul(x * u - y * v, x * v + y * u, a), [smul(x, y, smul(u, v, a))], ML + "smul_smul")
+lemma("smul_smul", [x, y, u, v, a], smul(x, y, smul(u, v, a)) == smul(*cmul(x, y, u, v), a), [smul(x, y, smul(u, v, a))], ML + "smul_smul")
 lemma("smul_mmul_l", [x, y, a, b], mmul(smul(x, y, a), b) == smul(x, y, mmul(a, b)), [mmul(smul(x, y, a), b)], ML + "Matrix.smul_mul")
 lemma("smul_mmul_r", [x, y, a, b], mmul(a, smul(x, y, b)) == smul(x, y, mmul(a, b)), [mmul(a, smul(x, y, b))], ML + "Matrix.mul_smul")
 
 # ---------------------------------------------------------------- transpose / conjugate
+_GROUP[0] = 'tr'
 lemma("tr_tr", [a], tr(tr(a)) == a, [tr(tr(a))], ML + "Matrix.transpose_transpose")
 lemma("cj_cj", [a], cj(cj(a)) == a, [cj(cj(a))], ML + "star_star")
 lemma("tr_cj", [a], tr(cj(a)) == cj(tr(a)), [tr(cj(a))], ML + "Matrix.conjTranspose = transpose.map star")
@@ -193,6 +238,7 @@ lemma("unit_def", [a], z3.Implies(unit(a), z3.And(sq(a), invok(a), minv(a) == cj
 lemma("stief_def", [a], z3.Implies(stief(a), mmul(cj(tr(a)), a) == eye(cols(a))), [stief(a)], "definition: A^H A = I")
 
 # ---------------------------------------------------------------- inverse
+_GROUP[0] = 'inv'
 lemma("inv_mmul", [a, b], z3.Implies(z3.And(sq(a), sq(b), rows(b) == cols(a), invok(a), invok(b)),
                                      minv(mmul(a, b)) == mmul(minv(b), minv(a))), [minv(mmul(a, b))], ML + "Matrix.mul_inv_rev")
 lemma("invok_mmul", [a, b], z3.Implies(z3.And(invok(mmul(a, b)), sq(a), sq(b)), z3.And(invok(a), invok(b))),
@@ -209,9 +255,9 @@ lemma("inv_rep", [a, n], z3.Implies(z3.And(invok(rep(a, n)), n >= 1), minv(rep(a
 lemma("invok_rep", [a, n], z3.Implies(z3.And(invok(rep(a, n)), n >= 1), z3.And(invok(a), sq(a))), [invok(rep(a, n))], AS + "rank argument as invok_bd")
 lemma("inv_eye", [n], z3.And(minv(eye(n)) == eye(n), invok(eye(n))), [eye(n)], ML + "inv_one")
 lemma("inv_smul", [x, y, a], z3.Implies(z3.And(invok(a), z3.Or(x != 0, y != 0)),
-                                        minv(smul(x, y, a)) == smul(x / (x * x + y * y), -y / (x * x + y * y), minv(a))),
+                                        minv(smul(x, y, a)) == smul(rm(x, rinv(rm(x, x) + rm(y, y))), -rm(y, rinv(rm(x, x) + rm(y, y))), minv(a))),
       [minv(smul(x, y, a))], ML + "Matrix.inv_smul")
-lemma("inv_smul_real", [x, a], z3.Implies(z3.And(invok(a), x != 0), minv(smul(x, 0, a)) == smul(1 / x, 0, minv(a))),
+lemma("inv_smul_real", [x, a], z3.Implies(z3.And(invok(a), x != 0), minv(smul(x, 0, a)) == smul(rinv(x), 0, minv(a))),
       [minv(smul(x, 0, a))], ML + "Matrix.inv_smul (real scalar)")
 lemma("invok_smul", [x, y, a], z3.Implies(z3.And(invok(smul(x, y, a)), rows(a) >= 1), z3.And(invok(a), z3.Or(x != 0, y != 0))), [invok(smul(x, y, a))], ML + "det_smul")
 lemma("inv_diagm", [a], z3.Implies(vnz(a), minv(diagm(a)) == diagm(vrecip(a))), [minv(diagm(a))], ML + "Matrix.inv_diagonal")
@@ -227,6 +273,7 @@ lemma("inv_mul_cancel", [a], z3.Implies(invok(a), z3.And(mmul(minv(a), a) == eye
 lemma("inv_unique_l", [a, b], z3.Implies(z3.And(invok(a), mmul(a, b) == eye(rows(a))), b == minv(a)), [mmul(a, b), invok(a)], ML + "Matrix.inv_eq_right_inv")
 
 # ---------------------------------------------------------------- determinant as (phase, log-magnitude)
+_GROUP[0] = 'det'
 _sx, _sy = cmul(sgn_re(a), sgn_im(a), sgn_re(b), sgn_im(b))
 lemma("sld_mmul", [a, b], z3.Implies(z3.And(sq(a), sq(b)),
                                      z3.And(sgn_re(mmul(a, b)) == _sx, sgn_im(mmul(a, b)) == _sy, ld(mmul(a, b)) == ld(a) + ld(b))),
@@ -238,15 +285,15 @@ lemma("sld_bd", [a, b], z3.Implies(z3.And(sq(a), sq(b)),
                                    z3.And(sgn_re(bd(a, b)) == _sx, sgn_im(bd(a, b)) == _sy, ld(bd(a, b)) == ld(a) + ld(b))),
       [bd(a, b)], ML + "Matrix.det_blockDiagonal")
 lemma("sld_rep", [a, n], z3.Implies(z3.And(sq(a), n >= 0),
-                                    z3.And(sgn_re(rep(a, n)) == cpow_re(sgn_re(a), sgn_im(a), z3.ToReal(n)),
-                                           sgn_im(rep(a, n)) == cpow_im(sgn_re(a), sgn_im(a), z3.ToReal(n)),
-                                           ld(rep(a, n)) == z3.ToReal(n) * ld(a))),
+                                    z3.And(sgn_re(rep(a, n)) == cpow_re(sgn_re(a), sgn_im(a), n),
+                                           sgn_im(rep(a, n)) == cpow_im(sgn_re(a), sgn_im(a), n),
+                                           ld(rep(a, n)) == rm(z3.ToReal(n), ld(a)))),
       [rep(a, n)], ML + "Matrix.det_blockDiagonal (n equal blocks)")
 lemma("sld_eye", [n], z3.And(sgn_re(eye(n)) == 1, sgn_im(eye(n)) == 0, ld(eye(n)) == 0), [eye(n)], ML + "Matrix.det_one")
 lemma("sld_smul_eye", [x, y, n], z3.Implies(z3.And(n >= 0, z3.Or(x != 0, y != 0)),
-                                           z3.And(sgn_re(smul(x, y, eye(n))) == cpow_re(x / cabs(x, y), y / cabs(x, y), z3.ToReal(n)),
-                                                  sgn_im(smul(x, y, eye(n))) == cpow_im(x / cabs(x, y), y / cabs(x, y), z3.ToReal(n)),
-                                                  ld(smul(x, y, eye(n))) == z3.ToReal(n) * rlog(cabs(x, y)))),
+                                           z3.And(sgn_re(smul(x, y, eye(n))) == cpow_re(rm(x, rinv(cabs(x, y))), rm(y, rinv(cabs(x, y))), n),
+                                                  sgn_im(smul(x, y, eye(n))) == cpow_im(rm(x, rinv(cabs(x, y))), rm(y, rinv(cabs(x, y))), n),
+                                                  ld(smul(x, y, eye(n))) == rm(z3.ToReal(n), rlog(cabs(x, y))))),
       [smul(x, y, eye(n))], ML + "Matrix.det_smul + det_one: det(c I_n) = c^n")
 lemma("sld_permm", [p], z3.And(sgn_re(permm(p)) == psign(p), sgn_im(permm(p)) == 0, ld(permm(p)) == 0), [permm(p)], ML + "Matrix.det_permutation")
 lemma("sld_tr", [a], z3.And(sgn_re(tr(a)) == sgn_re(a), sgn_im(tr(a)) == sgn_im(a), ld(tr(a)) == ld(a)), [tr(a)], ML + "Matrix.det_transpose")
@@ -254,7 +301,7 @@ lemma("sld_cj", [a], z3.And(sgn_re(cj(a)) == sgn_re(a), sgn_im(cj(a)) == -sgn_im
 lemma("cpow_one", [x, y], z3.And(cpow_re(x, y, 1) == x, cpow_im(x, y, 1) == y), [cpow_re(x, y, 1)], "z^1 = z")
 lemma("cpow_one_i", [x, y], z3.And(cpow_re(x, y, 1) == x, cpow_im(x, y, 1) == y), [cpow_im(x, y, 1)], "z^1 = z")
 lemma("cpow_zero", [x, y], z3.And(cpow_re(x, y, 0) == 1, cpow_im(x, y, 0) == 0), [cpow_re(x, y, 0)], "z^0 = 1")
-lemma("cpow_of_one", [k2], z3.And(cpow_re(1, 0, k2) == 1, cpow_im(1, 0, k2) == 0), [cpow_re(1, 0, k2)], "1^k = 1")
+lemma("cpow_of_one", [k], z3.And(cpow_re(1, 0, k) == 1, cpow_im(1, 0, k) == 0), [cpow_re(1, 0, k)], "1^k = 1")
 lemma("cabs_pos", [x, y], z3.Implies(z3.Or(x != 0, y != 0), cabs(x, y) > 0), [cabs(x, y)], "|z| > 0 for z != 0")
 lemma("cabs_real", [x], z3.Implies(x > 0, cabs(x, 0) == x), [cabs(x, 0)], "|x| = x for x > 0")
 # diagonal / triangular: det = product of the diagonal
@@ -272,6 +319,10 @@ lemma("sld_tri_u", [a], z3.Implies(z3.And(triu(a), invok(a)),
       [triu(a)], ML + "Matrix.det_of_upperTriangular")
 
 
+lemma("vnz_vabs", [a], z3.Implies(vnz(a), vnz(vabs(a))), [vabs(a)], "|z| = 0 iff z = 0")
+lemma("vnz_tri", [a], z3.Implies(z3.And(z3.Or(tril(a), triu(a)), invok(a)), vnz(dg(a))), [dg(a)], ML + "Matrix.det_of_lowerTriangular: det = prod diag != 0")
+
+
 def kron_n(ts):
     t = ts[-1]
     for s in reversed(ts[:-1]):
@@ -285,17 +336,19 @@ def gen_kron_det_lemmas(max_arity=4):
     for ar in range(2, max_arity + 1):
         A = list(vs[:ar])
         K = kron_n(A)
-        sr, si = z3.RealVal(1), z3.RealVal(0)
-        l = z3.RealVal(0)
+        ps = []
+        l = None
         for i in range(ar):
-            e = z3.IntVal(1)
+            e = None
             for j in range(ar):
                 if j != i:
-                    e = e * cols(A[j])
-            e = z3.ToReal(e)
-            pr, pi = cpow_re(sgn_re(A[i]), sgn_im(A[i]), e), cpow_im(sgn_re(A[i]), sgn_im(A[i]), e)
-            sr, si = cmul(sr, si, pr, pi)
-            l = l + e * ld(A[i])
+                    e = cols(A[j]) if e is None else e * cols(A[j])
+            ps.append((cpow_re(sgn_re(A[i]), sgn_im(A[i]), e), cpow_im(sgn_re(A[i]), sgn_im(A[i]), e)))
+            term = rm(ld(A[i]), z3.ToReal(e))
+            l = term if l is None else l + term
+        sr, si = ps[-1]
+        for (pr, pi) in reversed(ps[:-1]):      # right-nested, as the proxies fold products
+            sr, si = cmul(pr, pi, sr, si)
         hyp = z3.And(*[sq(t) for t in A])
         lemma(f"sld_kron{ar}", A, z3.Implies(hyp, z3.And(sgn_re(K) == sr, sgn_im(K) == si, ld(K) == l)), [K],
               ML + "Matrix.det_kronecker (n-ary form by induction)")
@@ -304,6 +357,7 @@ def gen_kron_det_lemmas(max_arity=4):
 gen_kron_det_lemmas()
 
 # ---------------------------------------------------------------- structure predicates
+_GROUP[0] = 'pred'
 lemma("tril_tr", [a], z3.And(tril(tr(a)) == triu(a), triu(tr(a)) == tril(a)), [tr(a)], ML + "Matrix.BlockTriangular.transpose")
 lemma("tril_cj", [a], z3.And(tril(cj(a)) == tril(a), triu(cj(a)) == triu(a)), [cj(a)], "entrywise map preserves zero pattern")
 lemma("tril_kron", [a, b], z3.Implies(z3.And(tril(a), tril(b)), tril(kron(a, b))), [tril(a), tril(b), kron(a, b)], AS + "Kronecker product of lower triangular matrices is lower triangular (Horn & Johnson, Topics, 4.2)")
@@ -320,6 +374,7 @@ lemma("isperm_kron", [a, b], z3.Implies(z3.And(isperm(a), isperm(b)), isperm(kro
 lemma("isperm_bd", [a, b], z3.Implies(z3.And(isperm(a), isperm(b)), isperm(bd(a, b))), [isperm(a), isperm(b), bd(a, b)], AS + "block diagonal of permutation matrices")
 lemma("isperm_rep", [a, n], z3.Implies(isperm(a), isperm(rep(a, n))), [isperm(a), rep(a, n)], AS + "same")
 # mixed product property and block products
+_GROUP[0] = 'mixed'
 lemma("kron_mmul", [a, b, c, d], z3.Implies(z3.And(cols(a) == rows(c), cols(b) == rows(d)),
                                             mmul(kron(a, b), kron(c, d)) == kron(mmul(a, c), mmul(b, d))),
       [mmul(kron(a, b), kron(c, d))], ML + "Matrix.mul_kronecker_mul")
@@ -346,19 +401,32 @@ lemma("herm_cjtr_mul", [a], z3.And(herm(mmul(cj(tr(a)), a)), psd(mmul(cj(tr(a)),
 lemma("herm_mul_cjtr", [a], z3.And(herm(mmul(a, cj(tr(a)))), psd(mmul(a, cj(tr(a))))), [mmul(a, cj(tr(a)))], ML + "Matrix.posSemidef_self_mul_conjTranspose")
 
 
-def all_axioms():
-    return [fm for (_, fm, _) in LEMMAS]
+DEFAULT_GROUPS = ("dims", "ring", "tr", "inv", "det", "pred", "mixed")
+
+
+def all_axioms(groups=None):
+    groups = set(groups or DEFAULT_GROUPS)
+    return [fm for (_, fm, _, g) in LEMMAS if g in groups]
 
 
 def lemma_stats():
-    ml = sum(1 for (_, _, p) in LEMMAS if p.startswith(ML))
-    assumed = [(nm, p[len(AS):]) for (nm, _, p) in LEMMAS if p.startswith(AS)]
+    ml = sum(1 for (_, _, p, _) in LEMMAS if p.startswith(ML))
+    assumed = [(nm, p[len(AS):]) for (nm, _, p, _) in LEMMAS if p.startswith(AS)]
     return dict(total=len(LEMMAS), mathlib_named=ml, assumed=assumed,
                 definitional=len(LEMMAS) - ml - len(assumed))
 
 
 # ---------------------------------------------------------------- proving
-def _solver(timeout_ms, mbqi):
+def hard_check(s, timeout_ms):
+    """s.check() under z3's own timeout.  (A Python timer thread calling ctx.interrupt() corrupted the heap of forked
+    workers, so there is deliberately no second guard here; cvc5 runs as a separate process with a hard limit.)"""
+    try:
+        return s.check()
+    except z3.Z3Exception:
+        return z3.unknown
+
+
+def _solver(timeout_ms, mbqi=False):
     s = z3.Solver()
     s.set("timeout", int(timeout_ms))
     s.set("smt.mbqi", bool(mbqi))
@@ -366,44 +434,108 @@ def _solver(timeout_ms, mbqi):
     return s
 
 
-_AX_CACHE = None
+def _reason(s):
+    try:
+        return s.reason_unknown()
+    except Exception:
+        return "interrupted"
 
 
-def prove(hyps, goal, timeout_ms=4000, want_smt=False):
-    """Returns dict(status in {'unsat','unknown','sat'}, backend, secs, smt).  'unsat' = goal follows from hyps + lemmas."""
-    global _AX_CACHE
-    if _AX_CACHE is None:
-        _AX_CACHE = all_axioms()
+STATS = dict(z3=0, cvc5=0, z3_secs=0.0, cvc5_secs=0.0)
+CVC5 = "/usr/bin/cvc5"
+
+
+Z3CLI = "z3-new"
+
+
+def cli_check(smt2, tlimit_ms):
+    """second and third back ends on the SMT-LIB dump, as separate processes (hard limits): the z3 5.1 CLI in
+    E-matching mode and cvc5 1.0.3, run concurrently; the first `unsat` wins.  Returns (answer, backend)."""
+    import subprocess
+    import tempfile
+    import os
+    import shutil
+    with tempfile.NamedTemporaryFile("w", suffix=".smt2", delete=False, dir=os.environ.get("TMPDIR", "/tmp")) as f:
+        f.write("(set-logic ALL)\n" + smt2 + "\n")
+        path = f.name
+    secs = max(1, int(tlimit_ms / 1000))
+    cmds = []
+    z3cli = shutil.which(Z3CLI) or shutil.which("z3")
+    if z3cli:
+        cmds.append(("z3-cli", [z3cli, f"-T:{secs}", "smt.mbqi=false", "smt.auto_config=false", path]))
+    if os.path.exists(CVC5):
+        cmds.append(("cvc5-1.0.3", [CVC5, f"--tlimit={int(tlimit_ms)}", path]))
+    procs = [(nm, subprocess.Popen(c, stdout=subprocess.PIPE, stderr=subprocess.DEVNULL, text=True)) for nm, c in cmds]
+    answers = {}
+    t_end = time.time() + secs + 4
+    try:
+        pending = dict(procs)
+        while pending and time.time() < t_end:
+            for nm, pr in list(pending.items()):
+                if pr.poll() is not None:
+                    out = (pr.stdout.read() or "").strip().splitlines()
+                    ans = out[0].strip() if out else "unknown"
+                    answers[nm] = ans if ans in ("unsat", "sat", "unknown") else "unknown"
+                    del pending[nm]
+                    if answers[nm] == "unsat":
+                        return "unsat", nm
+            time.sleep(0.02)
+        return "unknown", "; ".join(f"{k}: {v}" for k, v in answers.items()) or "no answer"
+    finally:
+        for nm, pr in procs:
+            if pr.poll() is None:
+                pr.kill()
+            try:
+                pr.wait(timeout=2)
+            except Exception:
+                pass
+        try:
+            os.unlink(path)
+        except OSError:
+            pass
+
+
+def prove(hyps, goal, timeout_ms=8000, want_smt=False, groups=None, z3_ms=1500):
+    """Returns dict(status in {'unsat','unknown','sat'}, backend, secs).  'unsat' = goal follows from hyps + lemmas.
+    z3 in-process (E-matching only) first; its unknowns go to the z3 CLI and cvc5 as separate processes."""
     t0 = time.time()
-    out = {}
-    for mbqi, budget in ((False, timeout_ms), (True, timeout_ms)):
-        s = _solver(budget, mbqi)
-        s.add(*_AX_CACHE)
-        s.add(*hyps)
-        s.add(z3.Not(goal))
-        r = s.check()
-        out = dict(status=str(r), backend="z3-%s%s" % (z3.get_version_string(), "" if not mbqi else "+mbqi"),
-                   secs=time.time() - t0, reason="" if r != z3.unknown else s.reason_unknown())
-        if want_smt:
-            out["smt"] = s.to_smt2()
-        if r == z3.unsat:
-            return out
-        if r == z3.sat:
-            out["model"] = str(s.model())[:2000]
-            return out
+    ax = all_axioms(groups)
+    s = _solver(z3_ms)
+    s.add(*ax)
+    s.add(*hyps)
+    s.add(z3.Not(goal))
+    r = hard_check(s, z3_ms)
+    STATS["z3"] += 1
+    STATS["z3_secs"] += time.time() - t0
+    out = dict(status=str(r), backend="z3-" + z3.get_version_string(), secs=time.time() - t0,
+               reason="" if r != z3.unknown else _reason(s))
+    if want_smt:
+        out["smt"] = s.to_smt2()
+    if r == z3.unsat:
+        return out
+    if r == z3.sat:
+        out["model"] = str(s.model())[:2000]
+        return out
+    t1 = time.time()
+    ans, who = cli_check(s.to_smt2(), timeout_ms)
+    STATS["cvc5"] += 1
+    STATS["cvc5_secs"] += time.time() - t1
+    out["secs"] = time.time() - t0
+    if ans == "unsat":
+        out.update(status="unsat", backend=f"{who} (after in-process z3 unknown)")
+    else:
+        out["reason"] = f"z3: {out['reason']}; {who}"
     return out
 
 
-def implied(hyps, cond, timeout_ms=1500):
+def implied(hyps, cond, timeout_ms=400, groups=None):
     """Three-valued: True if hyps |- cond, False if hyps |- not cond, None otherwise (fast E-matching only)."""
-    global _AX_CACHE
-    if _AX_CACHE is None:
-        _AX_CACHE = all_axioms()
+    ax = all_axioms(groups)
     for want, fm in ((True, z3.Not(cond)), (False, cond)):
-        s = _solver(timeout_ms, False)
-        s.add(*_AX_CACHE)
+        s = _solver(timeout_ms)
+        s.add(*ax)
         s.add(*hyps)
         s.add(fm)
-        if s.check() == z3.unsat:
+        if hard_check(s, timeout_ms) == z3.unsat:
             return want
     return None
